@@ -259,6 +259,18 @@ class Natives(object):
             root = f
             while isinstance(root, ast.Attribute):
                 root = root.value
+            gv = None
+            if isinstance(f.value, ast.Name) and f.value.id not in st.env:
+                gv = ex.module.global_value(f.value.id, ex)
+                if gv is not None and isinstance(gv.ty, FuncT):
+                    gv = None
+            if gv is not None:
+                h = METHODS.get(f.attr)
+                if h is None:
+                    raise Undecided('method %s on module constant (line %d)' % (f.attr, e.lineno))
+                args = [ex.eval(st, a) for a in e.args]
+                kwargs = dict((k.arg, ex.eval(st, k.value)) for k in e.keywords)
+                return h(ex, st, gv, args, kwargs, e)
             if q is not None and not (isinstance(root, ast.Name) and root.id in st.env):
                 return self.call_qual(ex, st, q, e)
             # mutating container methods need an lvalue
